@@ -132,6 +132,18 @@ def streams(rng, tier):
         doc = email_doc(rng)
         for e in ("parse_email.str", "parse_email.bytes", "Metadata.from_email.str", "Metadata.from_email.bytes"):
             add("email", e, doc if e.endswith("bytes") else doc)
+        if rng.random() < 0.5:
+            # MIME framing of the document (round 7: seeded change r7c-c11-a decoded the body with the DECLARED charset): a Content-Type with a
+            # charset parameter naming a text codec, a non-text codec, or no codec at all, a Content-Transfer-Encoding, and always a body
+            cs = rng.choice(["utf-8", "utf8", "latin-1", "ascii", "utf-16", "utf-7", "cp1252", "x-unknown-charset", "unknown-8bit", "", "rot13", "hex", "base64",
+                             "idna", "punycode", "undefined", "utf-8 ", "\"utf-8\"", "utf-8\xe9","utf_8_sig", "none", "x" * 40])
+            ct = rng.choice(["text/plain", "text/markdown", "text/x-rst", "application/octet-stream", "text", ""]) + rng.choice(["; charset=", ";charset=", "; CHARSET=", "; charset*=utf-8''"]) + cs
+            hs = ["Metadata-Version: 2.1", "Name: a", "Version: 1", "Content-Type: " + ct]
+            if rng.random() < 0.5: hs.append("Content-Transfer-Encoding: " + rng.choice(["base64", "quoted-printable", "8bit", "7bit", "binary", "x-uuencode", "bogus", ""]))
+            if rng.random() < 0.3: hs.append("MIME-Version: 1.0")
+            rng.shuffle(hs)
+            mdoc = "\n".join(hs) + "\n\n" + rng.choice(["body text\n", "caf\xe9\n", "\xff\xfe\n", "aGVsbG8=\n", "=C3=A9 =ZZ\n", "+AGE-\n", "x"])
+            for e in ("parse_email.str", "parse_email.bytes", "Metadata.from_email.str", "Metadata.from_email.bytes"): add("email-mime", e, mdoc)
         add("elf", "ELFFile", elf_bytes(rng))
         if rng.random() < 0.4: add("elf-file", "ELFFile.file", elf_bytes(rng))
         if rng.random() < 0.2: add("elf-file", "ELFFile.file", gen_plat.b2s(gen_plat.rand_elf(rng)[0]))
